@@ -956,5 +956,7 @@ class Parser:
 
         tok_stream = generate_tokens(io.StringIO(source).readline)
         tokenizer = Tokenizer(tok_stream, verbose=verbose)
+        # error reports may quote lines on which no token starts: know them all, as the file path does
+        tokenizer._lines.update(enumerate(io.StringIO(source), 1))
         parser = cls(tokenizer, verbose=verbose, py_version=py_version)
         return parser.parse(mode if mode == "eval" else "file")
